@@ -85,8 +85,10 @@ class C16(Plugin):
                     calls.append([code, keys])
                 yield {"k": 0, "strict": rng.randint(0, 1), "calls": calls}
             elif rng.random() < 0.25:
+                # a third of them on a parser that has parsed a (conforming) fragment before: the clauses hold for every
+                # call on a parser object, not only the first
                 yield {"k": 1, "src": conforming_source(rng.randrange(10 ** 6), rng.randrange(len(DOCTYPES))), "frag": False,
-                       "conforming": True}
+                       "conforming": True, "after_fragment": rng.random() < 0.34}
             else:
                 src = gen_markup.document(rng)
                 if rng.random() < 0.4:
@@ -118,6 +120,10 @@ class C16(Plugin):
             return [[[c, [[k, isinstance(v, int)] for k, v in d.items()]] for (_, c, d) in p.errors], ex]
         src, frag = case["src"], case["frag"]
         p = html5lib.HTMLParser()
+        ps = html5lib.HTMLParser(strict=True)
+        if case.get("after_fragment"):
+            p.parseFragment("<b>x</b> y")
+            ps.parseFragment("<b>x</b> y")
         (p.parseFragment if frag else p.parse)(src)
         errs = [[list(pos), code, sorted(dv)] for pos, code, dv in p.errors]
         fmt_fail = []
@@ -127,7 +133,6 @@ class C16(Plugin):
                 E[code] % dv
             except Exception as e:
                 fmt_fail.append([code, type(e).__name__])
-        ps = html5lib.HTMLParser(strict=True)
         exc = []
         try:
             (ps.parseFragment if frag else ps.parse)(src)
